@@ -35,7 +35,10 @@ Section Mon.
                   | Native => forallb (fun r => same_gkn r (ow_id ow) || existsb (oref_eqb (demote r)) (o_owners o)) (o_owners r0)
                   | Annot => list_eqb oref_eqb (o_aowners o) [ctrl_ref (ow_id ow)]
                   end))
-            | None => true
+            | None =>
+                (* an apply the pass did not precede by a successful read of the object must be a create:
+                   with quiet third parties the object must not exist (no apply over an unread object) *)
+                negb (is_nil (pc_between c)) || match pre with None => true | Some _ => false end
             end
         | _ => true
         end
